@@ -3,6 +3,8 @@
 #pragma once
 #include <tapkee/tapkee.hpp>
 
+#include <limits>
+
 #include "front_tables.inc"
 #include "vcommon.hpp"
 
@@ -60,7 +62,15 @@ inline stichwort::Parameter make_param(const std::string& item)
     if (ty == "int")
         return Parameter::create(name, static_cast<IndexType>(std::stol(v)));
     if (ty == "real")
+    {
+        if (v == "nan")
+            return Parameter::create(name, std::numeric_limits<ScalarType>::quiet_NaN());
+        if (v == "inf")
+            return Parameter::create(name, std::numeric_limits<ScalarType>::infinity());
+        if (v == "-inf")
+            return Parameter::create(name, -std::numeric_limits<ScalarType>::infinity());
         return Parameter::create(name, static_cast<ScalarType>(vh::parse_num(v)));
+    }
     if (ty == "bool")
         return Parameter::create(name, v == "1");
     if (ty == "meth")
